@@ -91,3 +91,9 @@ Proof.
   change (0 :: ser_section (logical fs st)) with (ser_splice_info (logical fs st)).
   apply decode_ser. exact Hs.
 Qed.
+
+(* ---- CRC residue: composition with C13 (Module Crc proves the premise for gots.ComputeCRC = CRC-32/MPEG-2) ---- *)
+Theorem crc_zero_of_residue :
+  (forall m, crc_model (m ++ crc_model m) = [0; 0; 0; 0]) ->
+  forall st, crc_model (fst (update_data st)) = [0; 0; 0; 0].
+Proof. intros Hres st. destruct (crc_clause st) as (body & -> & _). apply Hres. Qed.
